@@ -250,3 +250,28 @@ INTERPRETER_STATE = [
      "def f(n):\n    return 0 if n == 0 else 1 + f(n - 1)\nprint(f(200))\n"),
 ]
 PROBE_SCRIPT = H + "suppress('algorithmic')\nprint(repr(student.output))\n"
+
+
+# --------------------------------------------------------------------------------------------------
+# small-scope systematic part: EVERY fragment (alone, and followed by a crash) immediately before EVERY probe
+
+PROBES = [(["gently"], "ok"), (["nothing"], "zerodiv"), (["nothing"], "typeerr"), (["nothing"], "nameerr"),
+          (["nothing"], "unused"), (["nothing"], "syntax"), (["nothing"], "empty"), (["student_out"], "printer"),
+          (["assert_call", "compliment"], "ok"), (["sections"], "sections"), (["all_feedback"], "ok"),
+          (["tifa_again"], "mathpi"), (["custom_cls", "custom_untriggered"], "unused"), (["student_out"], "input2"),
+          (["unit_test"], "wrong"), (["explain", "gently_low"], "keyerr")]
+
+
+def systematic_histories(fragments, chunk=6):
+    """-> [(name, history)]: for each fragment f: f, p1, f, p2, ... and f+crash, p1, f+crash, p2, ..."""
+    out = []
+    for i in range(0, len(fragments), chunk):
+        h = []
+        for f in fragments[i:i + chunk]:
+            sub = "sections" if f.startswith("sections") else "ok"
+            for frags in ([f], [f, "crash_zero"]):
+                for pf, ps in PROBES:
+                    h.append(G(frags, sub))
+                    h.append(G(pf, ps))
+        out.append(("systematic-%d" % (i // chunk), h))
+    return out
